@@ -84,6 +84,40 @@ LAZY, JOINED, SUBQ, IMM, SEL_DEFAULT = 0, 1, 2, 3, 4  # selectin with chunksize 
 SIDE_LVL = 50  # plan-shape code of the table a root query joins to when it is not the first walk table
 
 
+# composite-key family (c["in"][0] == 77): relationship -> (parent table, child table, number of key columns,
+# (parent column index, child column index) pairs in the order of relationship.local_remote_pairs, which is the
+# order of the child's columns / of an explicit primaryjoin - not the primary key's)
+KEYRELS = [
+    ("kp", "kab", "kids_ab", 2, [[0, 1], [1, 2]]),  # FOREIGN KEY (pa, pb) REFERENCES kp (a, b)
+    ("kp", "kba", "kids_ba", 2, [[1, 2], [0, 1]]),  # FOREIGN KEY (pb, pa) REFERENCES kp (b, a)
+    ("kq", "kcab", "kids", 3, [[2, 3], [0, 1], [1, 2]]),  # FOREIGN KEY (pc, pa, pb) REFERENCES kq (c, a, b)
+]
+
+
+def _gen_keys_case(rng):
+    ri = rng.randrange(len(KEYRELS))
+    n = KEYRELS[ri][3]
+    vals = [1, 2] if n == 3 else [1, 2, 3]
+    allkeys = list(itertools.product(vals, repeat=n))
+    parents = sorted(rng.sample(allkeys, rng.randint(1, min(6, len(allkeys)))))
+    # mirrored keys: for some parents also the reversed tuple
+    for k in list(parents):
+        if rng.random() < 0.5 and tuple(reversed(k)) not in parents:
+            parents.append(tuple(reversed(k)))
+    parents = sorted(set(parents))
+    prow = [list(k) + [rng.randint(0, 2)] for k in parents]
+    crow = []
+    for i in range(1, rng.randint(2, 7) + 1):
+        fk = list(rng.choice(parents)) if rng.random() < 0.6 else [rng.choice(vals) for _ in range(n)]
+        if rng.random() < 0.2:
+            fk[rng.randrange(n)] = None
+        crow.append([i] + fk + [rng.randint(0, 2)])
+    direction = rng.choice([0, 0, 1])
+    codes = [LAZY, JOINED, SUBQ, IMM, rng.choice([SEL_DEFAULT, 11, 12])]
+    pairs = KEYRELS[ri][4]
+    return {"in": [77, pairs, list(range(n)), prow, crow, direction, codes, ri], "kind": "compkey"}
+
+
 def root_subq(asg):
     """does the assignment issue a subquery load that re-issues the root statement?"""
     for a in asg:
@@ -147,8 +181,10 @@ def _gen_data(rng, rels, big=False):
     return tables
 
 
-def model_input(walk, tables, uq, asgs, cmp_plan, side=None):
-    """side = (relationship index, rows of the side table) when the root query joins a side relationship"""
+def model_input(walk, tables, uq, asgs, cmp_plan, side=None, preload=()):
+    """side = (relationship index, rows of the side table) when the root query joins a side relationship;
+    preload = [[level, maxid or None]...]: tables of the walk SELECTed (plainly, ids <= maxid) into the Session
+    before the query, so that the loaders meet objects that are already present with the relationship unloaded"""
     rels = [REL_IDS[i] for i in walk]
     steps = [[RELS[r][1], RELS[r][2], i + 1, tables[i + 1]] for i, r in enumerate(rels)]
     uq = list(uq[:7])
@@ -159,7 +195,7 @@ def model_input(walk, tables, uq, asgs, cmp_plan, side=None):
         sid, srows = side
         uq.append([0, RELS[REL_IDS[sid]][2], SIDE_LVL, srows])
         extra = [sid]
-    return [tables[0], steps, uq, asgs, [1 if cmp_plan else 0], [list(walk), extra]]
+    return [tables[0], steps, uq, asgs, [1 if cmp_plan else 0], [list(walk), extra, [list(x) for x in preload]]]
 
 
 def _gen_side(rng, rels, tables):
@@ -245,6 +281,24 @@ def gen_cases(rng, tier):
                         "kind": "walk%d" % len(w),
                     }
                 )
+    # composite primary keys whose foreign key constraint lists the columns in another order, mirrored key
+    # values (1,2)/(2,1), NULL components: every strategy, both directions
+    for _ in range({"quick": 40, "thorough": 600}[tier]):
+        cases.append(_gen_keys_case(rng))
+    # histories: some tables of the walk are already in the Session (plain SELECT, relationships unloaded)
+    # when the query runs; what is loaded must not depend on that.  The plan does (identity map): not compared
+    for _ in range({"quick": 30, "thorough": 500}[tier]):
+        w = rng.choice(w2 + w2 + w3)
+        walk = [REL_IDS.index(r) for r in w]
+        data = _gen_data(rng, w)
+        uq = _gen_uq(rng, RELS[w[0]][1] == 0)
+        side = _gen_side(rng, w, data) if uq[0] in (2, 3) else None
+        asgs = [list(a) for a in itertools.product(*[[LAZY, JOINED, SUBQ, IMM, rng.choice([SEL_DEFAULT, 11, 12])]] * len(w))]
+        if len(w) == 3:
+            asgs = rng.sample(asgs, 25)
+        levels = [lv for lv in range(len(w) + 1) if rng.random() < 0.5] or [rng.randrange(1, len(w) + 1)]
+        preload = [[lv, rng.choice([None, None, 1, 2, 3])] for lv in levels]
+        cases.append({"in": model_input(walk, data, uq, asgs, False, side, preload), "kind": "history"})
     # column-loader options (defer / load_only / undefer / with_expression / untriggered raiseload) at every
     # level, combined with every relationship-strategy assignment: oracle only (the model has no columns)
     for _ in range({"quick": 24, "thorough": 400}[tier]):
@@ -289,6 +343,8 @@ def gen_cases(rng, tier):
 
 
 def nontrivial(c):
+    if c["in"][0] == 77:
+        return len(c["in"][3]) >= 2 and len(c["in"][4]) >= 2
     r0, steps, uq, asgs = c["in"][:4]
     if uq[2] or uq[3] or uq[5] != [] or uq[6] != []:
         return True
@@ -409,6 +465,52 @@ def _setup():
         v = Column(Integer)
         cs = relationship("C", order_by="C.id", back_populates="t")
 
+    from sqlalchemy import ForeignKeyConstraint
+
+    class KP(Base):
+        __tablename__ = "kp"
+        a = Column(Integer, primary_key=True)
+        b = Column(Integer, primary_key=True)
+        v = Column(Integer)
+        kids_ab = relationship("KAB", order_by="KAB.id", back_populates="parent")
+        kids_ba = relationship("KBA", order_by="KBA.id", back_populates="parent")
+
+    class KAB(Base):
+        __tablename__ = "kab"
+        id = Column(Integer, primary_key=True)
+        pa = Column(Integer)
+        pb = Column(Integer)
+        v = Column(Integer)
+        parent = relationship("KP", back_populates="kids_ab")
+        __table_args__ = (ForeignKeyConstraint(["pa", "pb"], ["kp.a", "kp.b"]),)
+
+    class KBA(Base):
+        __tablename__ = "kba"
+        id = Column(Integer, primary_key=True)
+        pb = Column(Integer)  # the join condition lists the pairs in the child's column order: (b, pb), (a, pa)
+        pa = Column(Integer)
+        v = Column(Integer)
+        parent = relationship("KP", back_populates="kids_ba")
+        __table_args__ = (ForeignKeyConstraint(["pb", "pa"], ["kp.b", "kp.a"]),)
+
+    class KQ(Base):
+        __tablename__ = "kq"
+        a = Column(Integer, primary_key=True)
+        b = Column(Integer, primary_key=True)
+        c = Column(Integer, primary_key=True)
+        v = Column(Integer)
+        kids = relationship("KCAB", order_by="KCAB.id", back_populates="parent")
+
+    class KCAB(Base):
+        __tablename__ = "kcab"
+        id = Column(Integer, primary_key=True)
+        pc = Column(Integer)
+        pa = Column(Integer)
+        pb = Column(Integer)
+        v = Column(Integer)
+        parent = relationship("KQ", back_populates="kids")
+        __table_args__ = (ForeignKeyConstraint(["pc", "pa", "pb"], ["kq.c", "kq.a", "kq.b"]),)
+
     eng = create_engine("sqlite://", poolclass=StaticPool, connect_args={"check_same_thread": False})
     Base.metadata.create_all(eng)
     log = []
@@ -419,7 +521,9 @@ def _setup():
             log.append((statement, parameters))
 
     _ENV.update(
-        eng=eng, classes={"m": M, "p": P, "c": C, "g": G, "d": D, "t": T}, log=log, recording=False, loaded=None
+        eng=eng,
+        classes={"m": M, "p": P, "c": C, "g": G, "d": D, "t": T, "kp": KP, "kab": KAB, "kba": KBA, "kq": KQ, "kcab": KCAB},
+        log=log, recording=False, loaded=None
     )
     return _ENV
 
@@ -680,7 +784,8 @@ def _snapshot(objs, rels, keep, cols=False):
     return out
 
 
-def _run_assignment(env, rels, uq, asg, lvl_of, cmp_plan, side=None, colopts=None):
+def _run_assignment(env, rels, uq, asg, lvl_of, cmp_plan, side=None, colopts=None, preload=()):
+    from sqlalchemy import select
     from sqlalchemy.orm import Session
 
     if colopts is None:
@@ -692,6 +797,13 @@ def _run_assignment(env, rels, uq, asg, lvl_of, cmp_plan, side=None, colopts=Non
     try:
         with Session(env["eng"]) as s:
             keep = []
+            tabs = [rels[0][0]] + [RELS[r][0] for r in rels]
+            for lv, maxid in preload:
+                K = env["classes"][tabs[lv]]
+                pre = select(K).order_by(K.id)
+                if maxid != []:
+                    pre = pre.where(K.id <= maxid)
+                keep.extend(s.scalars(pre).all())
             objs = s.scalars(st).unique().all()
             snap = _snapshot(objs, rels, keep, colopts is not None)
     finally:
@@ -703,7 +815,7 @@ def _run_assignment(env, rels, uq, asg, lvl_of, cmp_plan, side=None, colopts=Non
 
 
 def _decode(c):
-    walk, extra = c["in"][5]
+    walk, extra = c["in"][5][:2]
     rels = [REL_IDS[i] for i in walk]
     tabs = [rels[0][0]] + [RELS[r][0] for r in rels]
     lvl_of = {t: i for i, t in enumerate(tabs)}
@@ -713,17 +825,73 @@ def _decode(c):
     return rels, lvl_of, side
 
 
+def _impl_keys(env, c):
+    from sqlalchemy import delete, insert, select
+    from sqlalchemy.orm import Session, immediateload, joinedload, lazyload, selectinload, subqueryload
+
+    _, pairs, pk, prow, crow, direction, codes, ri = c["in"]
+    ptab, ctab, relname, n, _ = KEYRELS[ri]
+    PK, CH = env["classes"][ptab], env["classes"][ctab]
+    pcols = ["a", "b", "c"][:n]
+    ccols = ["pa", "pb", "pc"][:n]
+    env["loaded"] = None
+    with env["eng"].begin() as conn:
+        for t in ("kab", "kba", "kcab", "kp", "kq"):
+            conn.execute(delete(env["classes"][t].__table__))
+        conn.execute(insert(PK.__table__), [dict(zip(pcols + ["v"], r)) for r in prow])
+        conn.execute(
+            insert(CH.__table__), [dict(zip(["id"] + ccols + ["v"], [None if x == [] else x for x in r])) for r in crow]
+        )
+    fns = {LAZY: lazyload, JOINED: joinedload, SUBQ: subqueryload, IMM: immediateload}
+    res = []
+    first = None
+    for code in codes:
+        attr = getattr(PK, relname) if direction == 0 else CH.parent
+        opt = fns[code](attr) if code in fns else selectinload(attr, **({} if code == SEL_DEFAULT else {"chunksize": code - 10}))
+        try:
+            with Session(env["eng"]) as s:
+                if direction == 0:
+                    objs = s.scalars(select(PK).order_by(*[getattr(PK, x) for x in pcols]).options(opt)).unique().all()
+                    snap = [[getattr(o, x) for x in pcols] + [[k.id for k in getattr(o, relname)]] for o in objs]
+                else:
+                    objs = s.scalars(select(CH).order_by(CH.id).options(opt)).unique().all()
+                    snap = [[o.id, [] if o.parent is None else [[getattr(o.parent, x) for x in pcols]]] for o in objs]
+        except Exception as ex:
+            res.append([0, 1 + EXC_NAMES.index(type(ex).__name__) if type(ex).__name__ in EXC_NAMES else 1])
+            continue
+        if first is None:
+            first = snap
+        res.append([hash_tree(snap), 0])
+    if first is None or first == _meaning(c):
+        first = []
+    return [res, first]
+
+
+def _meaning_keys(c):
+    _, pairs, pk, prow, crow, direction, codes, ri = c["in"]
+
+    def joined(p, ch):
+        return all(p[a] != [] and ch[f] != [] and p[a] == ch[f] for a, f in pairs)
+
+    if direction == 0:
+        return [[p[i] for i in pk] + [[ch[0] for ch in crow if joined(p, ch)]] for p in prow]
+    return [[ch[0], [[p[i] for i in pk] for p in prow if joined(p, ch)]] for ch in crow]
+
+
 def impl(c):
     env = _setup()
+    if c["in"][0] == 77:
+        return _impl_keys(env, c)
     rels, lvl_of, side = _decode(c)
     r0, steps, uq, asgs, (cmp_plan,), _ = c["in"][:6]
     colopts = c["in"][6] if len(c["in"]) > 6 else None
+    preload = c["in"][5][2] if len(c["in"][5]) > 2 else []
     _load_data(env, rels, [r0] + [st[3] for st in steps], side, uq[7][3] if side is not None else ())
     res = []
     first = None
     for asg in asgs:
         try:
-            snap, ph = _run_assignment(env, rels, uq, asg, lvl_of, cmp_plan, side, colopts)
+            snap, ph = _run_assignment(env, rels, uq, asg, lvl_of, cmp_plan, side, colopts, preload)
         except ShapeError:
             raise
         except Exception as ex:  # a load that raises: graph hash 0, the second number names the exception
@@ -741,6 +909,8 @@ def impl(c):
 # ------------------------------------------------------------------------------------------------
 # the property itself, computed relationally in Python on the case data (independent of the model)
 def _meaning(c):
+    if c["in"][0] == 77:
+        return _meaning_keys(c)
     r0, steps, uq = c["in"][:3]
     colopts = c["in"][6] if len(c["in"]) > 6 else None
     pk, k, distinct, group, order, lim, off, js = uq
@@ -811,6 +981,8 @@ def effective(asg):
 
 def classify(c, asg, raised):
     """known-defect class of one failing assignment, or None"""
+    if c["in"][0] == 77:
+        return None
     r0, steps, uq = c["in"][:3]
     colopts = c["in"][6] if len(c["in"]) > 6 else None
     side = uq[7] if uq[7] != [] else None
@@ -836,7 +1008,7 @@ def oracle(c, obs):
     want = _meaning(c)
     hw = hash_tree(want)
     res, first = obs
-    asgs = c["in"][3]
+    asgs = c["in"][3] if c["in"][0] != 77 else [[x] for x in c["in"][6]]
     groups = {}
     for a, (gh, x) in zip(asgs, res):
         if gh != hw:
